@@ -163,6 +163,17 @@ def run_batch(b):
     tr = L["RecTransport"](events)
     orch = qo.QueueSemantivaOrchestrator(tr, stop_event=None, logger=make_logger(events, "master", _uniq[0]))
     stop = threading.Event()
+    slow = float(b.get("slow_enqueue", 0.0))
+    if slow > 0:
+        # a legal schedule: the enqueuing thread is preempted right after handing the job to the master's queue, long
+        # enough for master, worker and the status message to finish before enqueue() continues
+        _put = orch.job_queue.put
+
+        def put(item, *a, **kw):
+            r = _put(item, *a, **kw)
+            time.sleep(slow)
+            return r
+        orch.job_queue.put = put
     master = threading.Thread(target=orch.run_forever, daemon=True, name="c15-master")
     workers = [threading.Thread(target=wk.worker_loop, daemon=True, name="c15-worker-%d" % w,
                                 args=(w, tr, SequentialSemantivaExecutor(), stop, make_logger(events, "w%d" % w, _uniq[0]),
